@@ -1052,6 +1052,12 @@ class AnsiString:
                     and settings.add
                     and self._fmts[key].rem[:len(settings.add)] == settings.add
                     and __class__._same_order(self._fmts[key].rem[:len(settings.add)], self.ansi_settings_at(shift - 1))
+                    and not any(
+                        s is mine and s is not theirs
+                        for point in incoming_fmts.values()
+                        for s in point.add + point.rem
+                        for mine, theirs in zip(self._fmts[key].rem, settings.add)
+                    )
                 ):
                     # Special case - the string being added contains same formatting as end of my string.
                     # Because the settings work based on references instead of values, the settings not only
